@@ -1,14 +1,16 @@
 // C15 harness: the RPC client (qnet/rpc.go).
 //
 // input    (c0 (op ...))    c0 = where the 16-bit sequence counter stands at the start (hook)
-//   op     (0 sync adj)          Call on its own goroutine (sync = 1) / AsyncCall; adj = 0 keeps the
-//                                deadline the code computed (now + 60 s), else the hook puts it at
-//                                start + adj ms
-//          (1 seq rid err dec)   Dispatch(response rid): sequence number, error code (0 = reply body),
-//                                dec = 1 the command id is a registered message (Decode succeeds)
-//          (2 now)               expiry sweep at start + now ms (hook VerifSweep)
-//          (3)                   ReapTimeout()
-//          (4 n)                 n times: AsyncCall, Dispatch of a good reply to the request just queued
+//
+//	op     (0 sync adj)          Call on its own goroutine (sync = 1) / AsyncCall; adj = 0 keeps the
+//	                             deadline the code computed (now + 60 s), else the hook puts it at
+//	                             start + adj ms
+//	       (1 seq rid err dec)   Dispatch(response rid): sequence number, error code (0 = reply body),
+//	                             dec = 1 the command id is a registered message (Decode succeeds)
+//	       (2 now)               expiry sweep at start + now ms (hook VerifSweep)
+//	       (3)                   ReapTimeout()
+//	       (4 n)                 n times: AsyncCall, Dispatch of a good reply to the request just queued
+//
 // observed one (a b ((cid how code rid) ...)) per op, see coq/C15/Run.v
 package main
 
@@ -65,17 +67,19 @@ type syncCall struct {
 }
 
 type hist struct {
-	cli   *qnet.RpcClient
-	t0    time.Time
-	mu    sync.Mutex
-	recs  []*rec // one record per executed (or skipped) op, in the order of the input (outer op, then its nested ops)
-	top   *rec   // the outer op the owner is working on
-	cur   *rec   // the op being executed: completions are attributed to it
-	nest  *nestSpec
-	bad   bool // a blocking caller neither returned nor parked
-	syncs []*syncCall
-	pkts  map[fatchoy.IPacket]int64 // response packets handed to Dispatch -> rid
-	ncall int64
+	cli     *qnet.RpcClient
+	t0      time.Time
+	mu      sync.Mutex
+	recs    []*rec // one record per executed (or skipped) op, in the order of the input (outer op, then its nested ops)
+	top     *rec   // the outer op the owner is working on
+	stuckAt *rec   // the op during which the owner was found dead-locked
+	ncomps  int    // completions logged so far
+	cur     *rec   // the op being executed: completions are attributed to it
+	nest    *nestSpec
+	bad     bool // a blocking caller neither returned nor parked
+	syncs   []*syncCall
+	pkts    map[fatchoy.IPacket]int64 // response packets handed to Dispatch -> rid
+	ncall   int64
 }
 
 func newHist(c0 uint16, qsize int) *hist {
@@ -88,6 +92,7 @@ func (h *hist) at(ms int64) time.Time { return h.t0.Add(time.Duration(ms) * time
 
 func (h *hist) log(c comp) {
 	h.mu.Lock()
+	h.ncomps++
 	if h.cur != nil {
 		h.cur.comps = append(h.cur.comps, c)
 	}
@@ -272,10 +277,27 @@ func (h *hist) watch(done chan struct{}, ownerGid *int32) (stuck, slow bool) {
 			}
 		}
 		if others {
-			select {
-			case <-done:
-				return false, false
-			default:
+			// a dead-lock stays: the same picture (owner's stack, the op it works on, the completions logged)
+			// must be seen three more times, 50 ms apart, before it counts
+			h.mu.Lock()
+			top0, n0 := h.top, h.ncomps
+			h.mu.Unlock()
+			same := true
+			for k := 0; k < 3 && same; k++ {
+				select {
+				case <-done:
+					return false, false
+				case <-time.After(50 * time.Millisecond):
+				}
+				g2 := GDump()[gid]
+				h.mu.Lock()
+				same = g2 != nil && g2.State == g.State && g2.Text == g.Text && h.top == top0 && h.ncomps == n0
+				h.mu.Unlock()
+			}
+			if same {
+				h.mu.Lock()
+				h.stuckAt = top0
+				h.mu.Unlock()
 				return true, false
 			}
 		}
@@ -498,8 +520,8 @@ func run(in Sx) Sx {
 	}()
 	stuck, slow := h.watch(done, &ownerGid)
 	h.mu.Lock()
-	if stuck && h.top != nil {
-		h.top.stuck = true
+	if stuck && h.stuckAt != nil {
+		h.stuckAt.stuck = true
 	}
 	recs := append([]*rec(nil), h.recs...)
 	for len(recs) < flatLen(ops) { // ops the owner never reached
@@ -802,7 +824,7 @@ func genWrapTimedOut(rng *Rng) Sx {
 	if rng.Bool() {
 		ops = append(ops, Ints(3)) // completed with the time-out before the number comes round ...
 	}
-	ops = append(ops, Ints(4, 65534)) // the counter now stands just below the old number
+	ops = append(ops, Ints(4, 65534))                 // the counter now stands just below the old number
 	ops = append(ops, Ints(0, int64(rng.Intn(2)), 0)) // the new call is given the old number
 	if rng.Bool() {
 		ops = append(ops, Ints(2, 30000)) // a sweep that must not touch the new call
@@ -810,7 +832,7 @@ func genWrapTimedOut(rng *Rng) Sx {
 	ops = append(ops, Ints(3)) // ... or only now
 	errno := int64(rng.PickInt(0, 0, 9))
 	ops = append(ops, Ints(1, int64(old), 7, errno, 1)) // the reply to the new call
-	ops = append(ops, Ints(1, int64(old), 8, 0, 1))      // a duplicate of it: unmatched
+	ops = append(ops, Ints(1, int64(old), 8, 0, 1))     // a duplicate of it: unmatched
 	ops = append(ops, Ints(2, 200000), Ints(3))
 	return List(Uint(uint64(c0)), ListOf(ops))
 }
@@ -1038,7 +1060,7 @@ func fullTable(c0 uint16) (code int64, what string) {
 		completions[65535]++
 		codesSeen[65535] = code
 		cli.VerifPending()
-		cli.AsyncCall(node, wrapperspb.String("q"), cb(65540)) // the retry: refused as well
+		cli.AsyncCall(node, wrapperspb.String("q"), cb(65540))    // the retry: refused as well
 		cli.Dispatch(packet.New(msgID, 0, fatchoy.PFlagRpc, nil)) // number 0 is never outstanding
 		cli.ReapTimeout()
 		return nil
@@ -1110,7 +1132,8 @@ var fullChecked int64
 // calls with their own reply, the others with RequestTimeout; no two outstanding requests ever
 // carried the same sequence number, none carried 0.
 // returns 0 ok | 1 zero seq | 2 duplicate outstanding seq | 3 wrong reply / code | 5 wrong timeout |
-//         7 completion count != 1 | 9 inconclusive (a blocking caller neither returned nor parked)
+//
+//	7 completion count != 1 | 9 inconclusive (a blocking caller neither returned nor parked)
 func stress(ncallers, per int, seed uint64) (int64, string) {
 	total := ncallers * per
 	// the queue holds every request: makeCall sends on it while holding the table mutex, so a full
